@@ -17,6 +17,8 @@ import (
 	"context"
 	"reflect"
 	"sync"
+
+	"github.com/modern-go/reflect2"
 )
 
 // Server is a generic interface used to represent any server.
@@ -194,8 +196,9 @@ func (s *Service) Execute(ctx context.Context, name string, args []interface{}) 
 	out := f.Call(in)
 	n = len(out)
 	if method.ReturnError() {
-		if !out[n-1].IsNil() {
-			err = out[n-1].Interface().(error)
+		// a result of a concrete error type that has no nil (a struct) is always an error
+		if e := out[n-1]; !reflect2.IsNullable(e.Kind()) || !e.IsNil() {
+			err = e.Interface().(error)
 		}
 		out = out[:n-1]
 		n--
